@@ -1,0 +1,213 @@
+//go:build verif
+// +build verif
+
+// Contracts for package par2, checked by /verif/gocv (build tag "verif").
+
+package par2
+
+// Delegate callbacks are assumed not to touch gopar state or the filesystem
+// (true of every implementation in this repository).
+//@ iface-pure DecoderDelegate VerifyDelegate RepairDelegate EncoderDelegate CreateDelegate
+
+// The filesystem behind fileIO does not touch gopar's memory; what it does to
+// files is the subject of the ghost-state contracts of C02/C18.
+//@ func (fileIO).ReadFile
+//@   assume-contract environment: ioutil.ReadFile / memfs
+//@   modifies nothing
+//@ func (fileIO).FindWithPrefixAndSuffix
+//@   assume-contract environment: directory listing
+//@   modifies nothing
+//@ func (fileIO).WriteFile
+//@   assume-contract environment: ioutil.WriteFile / memfs
+//@   modifies nothing
+
+
+// ---- packet.go -------------------------------------------------------------
+
+//@ func sizeOfPacketHeader
+//@   props C13 C19 C05 C06
+//@   pure
+//@   ensures result == 64
+
+//@ func checkPacketHeader
+//@   props C13 C19 C05 C06
+//@   pure
+//@   ensures implies(result == nil, h.Length >= 64 && h.Length % 4 == 0)
+
+//@ func readPacketHeader
+//@   props C13 C19 C06
+//@   modifies *buf
+//@   ensures implies(result1 == nil, result0.Length >= 64 && result0.Length % 4 == 0)
+
+//@ func computePacketHash
+//@   props C13 C19 C05 C06
+//@   modifies nothing
+
+//@ func readNextPacket
+//@   props C13 C19 C06
+//@   modifies *buf
+//@   ensures implies(result3 == nil, len(result2) % 4 == 0)
+
+// ---- main_packet.go, string.go, *_packet.go ---------------------------------
+
+//@ func fileIDLess
+//@   props C13 C19 C05 C17
+//@   pure
+//@   loop 0
+//@     invariant i <= 15
+
+//@ func checkFileIDSetsSorted
+//@   props C13 C19
+//@   modifies nothing
+
+// The comparison closures are called by sort.SliceIsSorted with indices inside the slice (assumed of package sort).
+//@ func checkFileIDSetsSorted$1
+//@   props C13 C19
+//@   nilable *
+//@   requires 0 <= i && i < len(recoverySet) && 0 <= j && j < len(recoverySet)
+//@   modifies nothing
+
+//@ func checkFileIDSetsSorted$2
+//@   props C13 C19
+//@   nilable *
+//@   requires 0 <= i && i < len(nonRecoverySet) && 0 <= j && j < len(nonRecoverySet)
+//@   modifies nothing
+
+// A successfully parsed main packet has a positive slice size that is a
+// multiple of 4 and at least one recovery-set file.
+//@ func readMainPacket
+//@   props C13 C19 C06
+//@   modifies nothing
+//@   ensures implies(result1 == nil, result0.sliceByteCount >= 4 && result0.sliceByteCount % 4 == 0 && len(result0.recoverySet) >= 1)
+
+//@ func nullTerminate
+//@   props C13 C19
+//@   modifies nothing
+//@   ensures len(result) <= len(bs)
+
+//@ func decodeNullPaddedASCIIString
+//@   props C13 C19
+//@   modifies nothing
+//@   loop 0
+//@     invariant cap(outBytes) == 0 || fresh(outBytes)
+
+//@ func readCreatorPacket
+//@   props C13 C19
+//@   modifies nothing
+
+//@ func computeFileID
+//@   props C13 C19 C05
+//@   modifies nothing
+
+//@ func checkFilename
+//@   props C13 C19 C15
+//@   pure
+
+//@ func readFileDescriptionPacket
+//@   props C13 C19 C06 C15
+//@   modifies nothing
+//@   ensures implies(result2 == nil, result1.byteCount >= 1)
+
+//@ func readIFSCPacket
+//@   props C13 C19 C06
+//@   modifies nothing
+//@   ensures implies(result2 == nil, len(result1.checksumPairs) >= 1)
+
+//@ func readRecoveryPacket
+//@   props C13 C19 C06
+//@   modifies nothing
+//@   ensures implies(result2 == nil, len(result1.data) % 4 == 0)
+
+// ---- file.go ------------------------------------------------------------------
+
+// What every consumer of a parsed file relies on: the validated facts of each
+// packet survive in the maps keyed by file ID / exponent.
+//@ pred mainPacketOK(p) = p.sliceByteCount >= 4 && p.sliceByteCount % 4 == 0 && len(p.recoverySet) >= 1
+//@ pred fileOK(f) = mapall(f.fileDescriptionPackets, v, v.byteCount >= 1) && mapall(f.ifscPackets, v, len(v.checksumPairs) >= 1) && mapall(f.recoveryPackets, v, len(v.data) % 4 == 0) && f.fileDescriptionPackets != nil && f.ifscPackets != nil && f.recoveryPackets != nil
+
+//@ func readFile
+//@   props C13 C19 C06
+//@   nilable expectedSetID
+//@   requires delegate != nil
+//@   modifies nothing
+//@   ensures implies(result2 == nil && result1.mainPacket != nil, mainPacketOK(result1.mainPacket))
+//@   ensures implies(result2 == nil, fileOK(result1))
+//@   loop 0
+//@     invariant mainPacket == nil || (newerThan(mainPacket, unknownPackets) && mainPacketOK(mainPacket))
+//@     invariant fileDescriptionPackets != nil && ifscPackets != nil && recoveryPackets != nil && unknownPackets != nil
+//@     invariant mapall(fileDescriptionPackets, v, v.byteCount >= 1) && mapall(ifscPackets, v, len(v.checksumPairs) >= 1) && mapall(recoveryPackets, v, len(v.data) % 4 == 0)
+//@     invariant mapall(unknownPackets, v, cap(v) == 0 || fresh(v))
+//@     invariant fresh(fileDescriptionPackets) && fresh(ifscPackets) && fresh(recoveryPackets) && fresh(unknownPackets) && fresh(buf)
+
+// ---- decoder.go -----------------------------------------------------------------
+
+//@ pred decoderOK(d) = d.fileIO != nil && d.delegate != nil && d.sliceByteCount >= 4 && d.sliceByteCount % 4 == 0
+// infoOK: the file length is positive and is covered by exactly its slices.
+//@ pred infoOK(x, slice) = x.byteCount >= 1 && len(x.checksumPairs) >= 1 && mathint(x.byteCount) <= mathint(len(x.checksumPairs)) * mathint(slice) && mathint(x.byteCount) > (mathint(len(x.checksumPairs)) - 1) * mathint(slice)
+
+//@ func decoderInputFileInfoIDs
+//@   props C13 C19
+//@   modifies nothing
+
+//@ func makeDecoderInputFileInfos
+//@   props C13 C19 C06
+//@   requires mapall(fileDescriptionPackets, v, v.byteCount >= 1) && mapall(ifscPackets, v, len(v.checksumPairs) >= 1)
+//@   modifies nothing
+//@   ensures implies(result1 == nil, len(result0) == len(fileIDs) && forall(i, 0, len(result0), result0[i].byteCount >= 1 && len(result0[i].checksumPairs) >= 1))
+//@   loop 0
+//@     invariant cap(decoderInputFileInfos) == 0 || fresh(decoderInputFileInfos)
+//@     invariant len(decoderInputFileInfos) == rangeindex + 1
+//@     invariant forall(i, 0, len(decoderInputFileInfos), decoderInputFileInfos[i].byteCount >= 1 && len(decoderInputFileInfos[i].checksumPairs) >= 1)
+
+//@ func newDecoder
+//@   props C13 C19 C06
+//@   requires fileIO != nil && delegate != nil
+//@   ensures implies(result1 == nil, result0 != nil && decoderOK(result0) && result0.numGoroutines == numGoroutines)
+//@   ensures implies(result1 == nil, forall(i, 0, len(result0.recoverySet), infoOK(result0.recoverySet[i], result0.sliceByteCount)))
+//@   loop 0
+//@     invariant forall(i, 0, rangeindex + 1, infoOK(recoverySet[i], sliceByteCount))
+
+//@ func sixteenKHash
+//@   props C13 C19 C02 C05
+//@   modifies nothing
+//@   ensures result == md5(bytes(data[:min(len(data), 16384)]))
+
+//@ func (*Decoder).getFilePath
+//@   props C13 C19 C15
+//@   modifies nothing
+
+//@ func (*Decoder).ShardCounts
+//@   props C13 C19 C03
+//@   modifies nothing
+
+//@ func sliceAndPadByteArray
+//@   props C13 C19 C16 C05
+//@   requires 0 <= start && start <= end && start <= len(bs) && end - start <= 281474976710656
+//@   ensures len(result) == end - start
+
+// recoveryOK: every recovery block that was accepted is exactly one slice long.
+// LoadParityData: safety of the volume loop and of the exponent-indexed shard
+// table. (That every stored shard is one slice long is established per file by
+// the closure below; carrying it through the nested slice-of-maps structure to
+// a postcondition is not attempted.)
+//@ func (*Decoder).LoadParityData
+//@   props C13 C19 C06
+//@   requires decoderOK(d)
+//@   loop 0
+//@     invariant d == old(d) && decoderOK(d)
+//@     invariant cap(parityFiles) == 0 || fresh(parityFiles)
+//@   loop 1
+//@     invariant d == old(d) && decoderOK(d)
+//@     invariant cap(parityShards) == 0 || fresh(parityShards)
+//@   loop 2
+//@     invariant d == old(d) && decoderOK(d)
+//@     invariant cap(parityShards) == 0 || fresh(parityShards)
+
+//@ func (*Decoder).LoadParityData$1
+//@   props C13 C19 C06
+//@   nilable *
+//@   requires d != nil && decoderOK(d)
+//@   modifies nothing
+//@   ensures implies(result1 == nil && result0 != nil, result0.recoveryPackets != nil && mapall(result0.recoveryPackets, v, len(v.data) == d.sliceByteCount))
+//@   loop 0
+//@     invariant visitedall(parityFile.recoveryPackets, v, len(v.data) == d.sliceByteCount)
